@@ -72,6 +72,11 @@ Proof.
   intros w w' [H1 H2]. exists true. split; [rewrite H1; apply ereach_refl | now rewrite H2, andb_true_r].
 Qed.
 (* a step taken on the session of a world, the rest of the world (in particular the ghost) unchanged *)
+Lemma mark_partial_same : forall b a l, w_sess (mark_partial b a l) = w_sess a /\ w_envok (mark_partial b a l) = w_envok a.
+Proof. intros. unfold mark_partial. destruct (_ && _); split; reflexivity. Qed.
+Lemma wq_mark : forall w b a l, wq w a -> wq w (mark_partial b a l).
+Proof. intros w b a l H. eapply wq_trans; [exact H | apply wq_same; apply mark_partial_same]. Qed.
+
 Lemma wq_step : forall w w' l, sstep (w_sess w) l (w_sess w') -> label_ok l = true -> w_envok w' = w_envok w -> wq w w'.
 Proof.
   intros w w' l H Hl He. exists (label_ok l). split; [now apply ereach_step | now rewrite He, Hl, andb_true_r].
@@ -252,13 +257,13 @@ Proof.
   intros. destruct m as [e|o|bs]; cbn [finish_mid]; [apply wq_refl| |].
   - apply bindu_wq; [apply flush_outbound_wq | intros; apply wq_refl].
   - pose proof (write_all_wq fuel bs w) as H. destruct (write_all fuel bs w) as [w1 r]. cbn [fst] in H.
-    destruct r as [u|e| | |]; try exact H.
+    destruct r as [u|e| | |]; try exact H; try (apply wq_mark; exact H).
     + pose proof (io_flush_sess w1) as Hs. destruct (io_flush w1) as [w2 fr]. cbn [fst] in Hs.
       assert (H2 : wq w w2) by (eapply wq_trans; [exact H | apply wq_same; exact Hs]).
       destruct fr; try exact H2.
       * eapply wq_trans; [exact H2|]. qstep0.
       * eapply wq_trans; [exact H2 | apply hd_wq].
-    + destruct e; try (eapply wq_trans; [exact H | apply hd_wq]). exact H.
+    + destruct e; try (eapply wq_trans; [exact H | apply hd_wq]). apply wq_mark. exact H.
 Qed.
 
 Lemma op_publish_wq : forall fuel r w, wq w (fst (op_publish fuel r w)).
@@ -294,12 +299,15 @@ Lemma op_disconnect_wq : forall fuel d w, wq w (fst (op_disconnect fuel d w)).
 Proof.
   intros. unfold op_disconnect. destruct (negb _); [apply wq_refl|].
   destruct (disconnect_prepare _ _); [apply wq_refl|].
-  pose proof (write_all_wq fuel bs w) as H. destruct (write_all fuel bs w) as [w1 r]. cbn [fst] in H.
-  destruct r as [u|e| | |]; try exact H.
+  set (w0 := if has_partial (s_ob (w_sess w)) then upd_poison w true else w).
+  assert (H0 : wq w w0) by (unfold w0; destruct (has_partial _); [apply wq_same; split; reflexivity|apply wq_refl]).
+  pose proof (write_all_wq fuel bs w0) as H. destruct (write_all fuel bs w0) as [w1 r]. cbn [fst] in H.
+  assert (H1 : wq w w1) by (eapply wq_trans; eassumption).
+  destruct r as [u|e| | |]; try exact H1; try (apply wq_mark; exact H1).
   - pose proof (io_flush_sess w1) as Hs. destruct (io_flush w1) as [w2 fr]. cbn [fst] in Hs.
-    assert (H2 : wq w w2) by (eapply wq_trans; [exact H | apply wq_same; exact Hs]).
+    assert (H2 : wq w w2) by (eapply wq_trans; [exact H1 | apply wq_same; exact Hs]).
     destruct fr; try exact H2; (eapply wq_trans; [exact H2 | apply hd_wq]).
-  - eapply wq_trans; [exact H | apply hd_wq].
+  - eapply wq_trans; [exact H1 | apply hd_wq].
 Qed.
 
 Lemma wq_sreach : forall w w', wq w w' -> sreach (w_sess w) (w_sess w').
